@@ -208,7 +208,7 @@ class C06(Check):
         K = 2 if tier == 'quick' else 3
         specs = [S.MAINT(K, n=1), S.CYCLES(K), S.MAINT(K - 1), S.RES_SER(K - 1), S.CYCLES2(K - 1), S.FAN(K - 1),
                  S.BUDGET(K - 1), S.BUDGET(K, budget=1, horizon=4), S.MAINT_SCRIPT(K), S.MAINT2_SCRIPT(K - 1),
-                 S.OFFSETS2(K - 1), S.BLOCKED_OUT(K - 1)]
+                 S.OFFSETS2(K - 1), S.BLOCKED_OUT(K - 1), S.CYCLES3(K), S.SINKOFF(K - 1)]
         jobs = _line_jobs(specs, ['cycle'], tier)
         for sp, ok in S.ser_family(n_max=1 if tier == 'quick' else 2):
             if ok:
